@@ -1,4 +1,6 @@
 import BpProofs.PyPreludeCasing
+import BpProofs.PyPrelude
+import BpModel.Importing
 /-
   Semantic prelude of the SOURCE TRANSLATOR for `parse_source_type_name` of src/betterproto/compile/importing.py
   (harness/extract_srcimpre.py → BpProofs/Gen/SrcImportingRe.lean), next to BpProofs/PyRegex.lean.
@@ -9,7 +11,11 @@ import BpProofs.PyPreludeCasing
     * in a pattern, `\.` is the one-character set `[.]` and `.` (no DOTALL flag) is `[^\n]`
       (that is how the translator writes them into the regex AST);
     * `m.group(i)` for a group on every path of the pattern is `Match.str` (PyPreludeCasing.lean);
-    * `s.lstrip(c)` for a one-character `c` drops the leading run of `c`.
+    * `s.lstrip(c)` for a one-character `c` drops the leading run of `c`;
+    * `WRAPPER_TYPES` (a module-level dict of classes, assigned once): `k in WRAPPER_TYPES` and
+      `type(WRAPPER_TYPES[k]().value).__name__` are the rows of BpModel/Gen/ImportWrappers.lean, which
+      harness/extract_importing.py regenerates on every run by EVALUATING that expression for every key of the live
+      dict (`Importing.wrapperTable`); a missing key raises KeyError.
 -/
 namespace Bp.PyRe
 open Bp.Importing (Str)
@@ -24,5 +30,14 @@ open Bp.Importing (Str)
 
 /-- `s.lstrip(c)`, `c` a single character -/
 def lstripChar (c : Char) (s : Str) : Str := s.dropWhile (· = c)
+
+/-- `k in WRAPPER_TYPES` -/
+def inWrapperTypes (k : Str) : Bool := (Importing.wrapperTable.lookup k).isSome
+
+/-- `type(WRAPPER_TYPES[k]().value).__name__` -/
+def wrapperValueTypeName (k : Str) : Res Str :=
+  match Importing.wrapperTable.lookup k with
+  | some n => .ok n
+  | none => .raise .key
 
 end Bp.Py
